@@ -104,7 +104,7 @@ namespace RecInt
     template <size_t K, typename T>
     inline __RECINT_IS_SIGNED(T, ruint<K>&) operator*=(ruint<K>& a, const T& b) {
         if (b < 0) {
-            mul(a, -b);
+            mul(a, __recint_mag(b));
             return (a = -a);
         } else return mul(a, b);
     }
@@ -128,13 +128,13 @@ namespace RecInt
     template <size_t K, typename T>
     inline __RECINT_IS_SIGNED(T, ruint<K>) operator*(const ruint<K>& b, const T& c) {
         ruint<K> a;
-        if (c < 0) return -mul(a, b, -c);
+        if (c < 0) return -mul(a, b, __recint_mag(c));
         else return mul(a, b, c);
     }
     template <size_t K, typename T>
     inline __RECINT_IS_SIGNED(T, ruint<K>) operator*(const T& c, const ruint<K>& b) {
         ruint<K> a;
-        if (c < 0) return -mul(a, b, -c);
+        if (c < 0) return -mul(a, b, __recint_mag(c));
         else return mul(a, b, c);
     }
 }
